@@ -37,7 +37,7 @@ def judge(ck, name, cases, results):
     return stats
 
 
-COEFF_KEYS = ("transition", "boundary", "cc_used", "trace", "constraints", "deep_used")
+COEFF_KEYS = ("aux_rands", "aux_used", "transition", "boundary", "cc_used", "trace", "constraints", "deep_used")
 
 
 def coefficients(ck, binary):
@@ -62,6 +62,7 @@ def coefficients(ck, binary):
     # vacuity: single-challenge methods with at least two transition and two boundary coefficients, all degrees
     rich = {(c["ext"], c["cbatch"]) for c in cases if len(c["expect"]["transition"]) >= 2 and len(c["expect"]["boundary"]) >= 2}
     ck.require({(e, m) for e in (1, 2, 3) for m in (0, 1, 2)} <= rich, "coefficient cases do not cover every method/degree: %s" % sorted(rich))
+    ck.require(sum(1 for c in cases if len(c["expect"]["aux_rands"]) >= 2) >= 20, "too few cases with two or more auxiliary random elements")
     ck.traces += len(cases)
     ck.evaluations += len(cases)
     ck.part("coefficients", cases=len(cases), mismatches=bad)
